@@ -27,6 +27,7 @@ import (
 // pair is a two-client world with a number of ledger channels between them.
 type pair struct {
 	restarting     [2]bool                       // C06 restart mode: the side's client is being replaced by a restored instance
+	born           [2]time.Duration              // when the current instance of each side was created (0: at the start)
 	slowNext       map[string]time.Duration      // node name -> extra reaction time for its next decision
 	cancelOnEnable bool                          // the next pay cancels its context when its state is enabled
 	coe            map[string]context.CancelFunc // armed cancellations by side:channel
